@@ -534,3 +534,22 @@ pub fn user_code_tick(kind: FaultKind) {
         fire(kind);
     }
 }
+
+thread_local! {
+    /// number of `NoDrop::clone` calls since it was last reset
+    pub static NODROP_CLONES: Cell<u64> = const { Cell::new(0) };
+}
+
+/// Element type without drop glue whose `Clone` is observable (call counter, generation).
+#[derive(Debug, PartialEq)]
+pub struct NoDrop {
+    pub val: u32,
+    pub gen: u32,
+}
+
+impl Clone for NoDrop {
+    fn clone(&self) -> NoDrop {
+        NODROP_CLONES.with(|c| c.set(c.get() + 1));
+        NoDrop { val: self.val, gen: self.gen + 1 }
+    }
+}
